@@ -659,7 +659,10 @@ class Interp:
             return True
         known = self._empty_membership(st, test)
         if known is not None:
-            return known == polarity
+            if known != polarity:
+                return False
+            self._assume(st, expand(test, st.vars, st.counter), polarity)  # keep the fact visible
+            return True
         expanded = expand(test, st.vars, st.counter)
         return self._assume(st, expanded, polarity)
 
